@@ -21,11 +21,14 @@ def asLinesAux : List SDoc → List SDoc → List (List SDoc)
 
 def asLines (out : List SDoc) : List (List SDoc) := asLinesAux out []
 
+def isLineEv : SDoc → Bool | .line _ => true | _ => false
+def isTextEv : SDoc → Bool | .text _ => true | _ => false
+
 /-- `rstrip()` the last text fragment of one line (`rfind_idx` + replacement). -/
 def stripLastText : List SDoc → List SDoc
   | [] => []
   | x :: r =>
-    if r.any (fun | .text _ => true | _ => false) then x :: stripLastText r
+    if r.any isTextEv then x :: stripLastText r
     else match x with
       | .text s => .text (rstrip s) :: r
       | y => y :: stripLastText r
